@@ -423,6 +423,13 @@ def _apply(via, kspec, sigs):
             if M.is_raised(w):
                 return w
             k = [float(v) for v in w]
+            if (n + len(k)) % 3 == 0:
+                # aliasing: the caller asked THIS kernel object for its window first and modified the list it got
+                # (to derive weights of its own); the kernel must go on filtering with its own window
+                wk = M.call(karg.toSlidingWindow)
+                if isinstance(wk, list):
+                    M.scribble(wk)
+                    M.CTX.count("sliding_window_list_modified_by_the_caller")
     if via == "operate":
         r = M.call(tr.operate, Operator.FILTER, "a", karg, "b")
         read = lambda: {"a": tr.getAnalyticalFeature("b")}
